@@ -41,7 +41,7 @@ Variable G : env.
 Definition act_ok (ac : action) : bool :=
   match ac with
   | ARaise k _ => K (if is_index k then XActIndex else k)
-  | ACond _ fatal _ => K (if fatal then XFatal else XParse) && K XActIndex
+  | ACond _ fatal _ => K (if fatal then XFatal else XParse) && K XActIndex && K XType
   | _ => true
   end.
 
@@ -140,8 +140,9 @@ Proof.
   - eapply IH; eassumption.
   - injection H as <-. destruct ac; simpl in E; try discriminate E.
     + injection E as <-. simpl in *. destruct k; simpl in *; assumption.
-    + apply andb_prop in Ha as [H1 H2].
-      destruct (first_len r) as [n|]; [destruct (Nat.leb minlen n); [discriminate|]|]; injection E as <-;
+    + apply andb_prop in Ha as [H1 H3]. apply andb_prop in H1 as [H1 H2].
+      unfold first_len in E.
+      destruct (toks r) as [|[ | | | | | ] ?]; try (destruct (Nat.leb minlen _); [discriminate|]); injection E as <-;
         destruct fatal; simpl in *; assumption.
 Qed.
 
